@@ -1709,8 +1709,10 @@ def GET_EYE(
 
     kmeans = sk.KMeans(n_clusters=2, n_init=10) # A model of sklearn to separete clusters
 
-    # Obtain centroide of data (y)
-    vm = np.mean(kmeans.fit(input.reshape(-1,1)).cluster_centers_)
+    # Obtain centroide of data (y): the two clusters start at the extremes of the record - a least-squares split with a random
+    # start halves the noise cloud of one level when the other level holds only a handful of samples
+    levels = sk.KMeans(n_clusters=2, n_init=1, init=np.array([[input.min()], [input.max()]]))
+    vm = np.mean(levels.fit(input.reshape(-1,1)).cluster_centers_)
 
     # we obtain the shortest interval of the upper half that contains 50% of the samples
     eye_dict["top_int"] = top_int = shortest_int(input[input > vm], percent=50)
